@@ -207,7 +207,9 @@ func (ctrler *RigoApp) InitChain(req abcitypes.RequestInitChain) abcitypes.Respo
 			addr, addr, // self staking
 			val.Power,
 			1,
-			bytes.ZeroBytes(32), // 0x00... txhash
+			// a genesis stake has no staking tx; its id is derived from the validator's key.
+			// (a common id 0x00... made the genesis stakes collide in the unbonding ledger, which is keyed by this id)
+			crypto.DefaultHash(pubBytes),
 		)
 		initStakes[i] = &stake.InitStake{
 			pubBytes,
